@@ -161,11 +161,13 @@ func (p *Program) sourceText(pos, end token.Pos) string {
 		return ""
 	}
 	ps := p.fset.Position(pos)
+	p.mu.Lock()
 	data, ok := p.files[ps.Filename]
 	if !ok {
 		data, _ = os.ReadFile(ps.Filename)
 		p.files[ps.Filename] = data
 	}
+	p.mu.Unlock()
 	if ps.Offset >= len(data) {
 		return ""
 	}
